@@ -3,7 +3,7 @@
    (index-wise spec applied to unit vectors; N-d through I (x) M (x) I) and with
    the code-shaped model, inside Coq over Qc. *)
 From Coq Require Import QArith Qcanon ZArith List Bool.
-From PV Require Import Dict Vec Dot Mat QcInst Check Slice Deriv Deriv2 Causal.
+From PV Require Import Dict Vec Dot Mat QcInst Check Slice Deriv Deriv2 Causal Axis AxisOps.
 Import ListNotations.
 
 Definition ent := nat -> nat -> Qc.
@@ -72,22 +72,26 @@ Definition ci_M (k : ckind) (rf : bool) (s : Qc) (n : nat) := e_mat (specmat (rf
 Definition ci_Mm (k : ckind) (rf : bool) (s : Qc) (n : nat) := e_mat (matof (rf1 rf n) n (ci_mv QcF k rf s)).
 Definition ci_Ma (k : ckind) (rf : bool) (s : Qc) (n : nat) := e_mat (matof n (rf1 rf n) (ci_rmv QcF k rf s)).
 
+(* the N-d code-shaped model: the 1-D model lifted by Axis.along_axis_gen, EXECUTED on unit vectors
+   (codes 2 / 3); code 1 = documented stencil placed by I (x) M (x) I *)
+Definition nd_mat (rows cols : nat) (f : list Qc -> list Qc) : ent := e_mat (matof rows cols f).
 (* FirstDerivative(dims, axis, sampling, kind, edge, order): dims = outer x n x inner *)
 Definition mkFD id (k : dkind) (o5 e : bool) (s : Qc) (outer n inner : nat) A B : case :=
   let N := (outer * n * inner)%nat in
   {| cid := id; rows := N; cols := N;
-     frefs := [(1%Z, e_along inner n n (fd_M k o5 e s n)); (2%Z, e_along inner n n (fd_Mm k o5 e s n))];
-     arefs := [(3%Z, e_along inner n n (fd_Ma k o5 e s n))]; cA := A; cB := B |}.
+     frefs := [(1%Z, e_along inner n n (fd_M k o5 e s n)); (2%Z, nd_mat N N (fd_nd QcF outer n inner k o5 e s))];
+     arefs := [(3%Z, nd_mat N N (fd_nd_adj QcF outer n inner k o5 e s))]; cA := A; cB := B |}.
 Definition mkSD id (k : dkind) (e : bool) (s : Qc) (outer n inner : nat) A B : case :=
   let N := (outer * n * inner)%nat in
   {| cid := id; rows := N; cols := N;
-     frefs := [(1%Z, e_along inner n n (sd_M k e s n)); (2%Z, e_along inner n n (sd_Mm k e s n))];
-     arefs := [(3%Z, e_along inner n n (sd_Ma k e s n))]; cA := A; cB := B |}.
+     frefs := [(1%Z, e_along inner n n (sd_M k e s n)); (2%Z, nd_mat N N (sd_nd QcF outer n inner k e s))];
+     arefs := [(3%Z, nd_mat N N (sd_nd_adj QcF outer n inner k e s))]; cA := A; cB := B |}.
 Definition mkCI id (k : ckind) (rf : bool) (s : Qc) (outer n inner : nat) A B : case :=
   let m := rf1 rf n in
-  {| cid := id; rows := (outer * m * inner)%nat; cols := (outer * n * inner)%nat;
-     frefs := [(1%Z, e_along inner m n (ci_M k rf s n)); (2%Z, e_along inner m n (ci_Mm k rf s n))];
-     arefs := [(3%Z, e_along inner n m (ci_Ma k rf s n))]; cA := A; cB := B |}.
+  let Nr := (outer * m * inner)%nat in let Nc := (outer * n * inner)%nat in
+  {| cid := id; rows := Nr; cols := Nc;
+     frefs := [(1%Z, e_along inner m n (ci_M k rf s n)); (2%Z, nd_mat Nr Nc (ci_nd QcF outer n inner k rf s))];
+     arefs := [(3%Z, nd_mat Nc Nr (ci_nd_adj QcF outer n inner k rf s))]; cA := A; cB := B |}.
 (* axes: list of (n, inner, weight, sampling); N = total size *)
 Definition axis4 := (nat * nat * Qc * Qc)%type.
 Definition lap_ent (kinds : list dkind) (e : bool) (axes : list axis4) : ent :=
@@ -95,15 +99,21 @@ Definition lap_ent (kinds : list dkind) (e : bool) (axes : list axis4) : ent :=
              e_zero (combine kinds axes).
 (* Laplacian: weighted sum over the axes of the documented SecondDerivative stencil, same kind and
    edge on every axis *)
+Definition to_axis (N : nat) (p : axis4) : axis QcF :=
+  let '(n, inner, w, s) := p in Build_axis QcF (Nat.div N (n * inner)) n inner w s.
 Definition mkLap id (k : dkind) (e : bool) (N : nat) (axes : list axis4) A B : case :=
   let doc := lap_ent (map (fun _ => k) axes) e axes in
-  {| cid := id; rows := N; cols := N; frefs := [(1%Z, doc)]; arefs := [(3%Z, e_T doc)]; cA := A; cB := B |}.
+  let ax := map (to_axis N) axes in
+  {| cid := id; rows := N; cols := N; frefs := [(1%Z, doc); (2%Z, nd_mat N N (lap_nd QcF N k e ax))];
+     arefs := [(3%Z, nd_mat N N (lap_nd_adj QcF N k e ax))]; cA := A; cB := B |}.
 (* Gradient: vertical stack over the axes of FirstDerivative (order 3) *)
 Definition grad_ents (k : dkind) (e : bool) (axes : list axis4) : list ent :=
   map (fun p => let '(n, inner, w, s) := p in e_along inner n n (fd_M k false e s n)) axes.
 Definition mkGrad id (k : dkind) (e : bool) (N : nat) (axes : list axis4) A B : case :=
   let g := e_vstack N (grad_ents k e axes) in
-  {| cid := id; rows := (length axes * N)%nat; cols := N; frefs := [(1%Z, g)]; arefs := [(3%Z, e_T g)]; cA := A; cB := B |}.
+  let ax := map (to_axis N) axes in let Nr := (length axes * N)%nat in
+  {| cid := id; rows := Nr; cols := N; frefs := [(1%Z, g); (2%Z, nd_mat Nr N (grad_nd QcF k e ax))];
+     arefs := [(3%Z, nd_mat N Nr (grad_nd_adj QcF N k e ax))]; cA := A; cB := B |}.
 (* FirstDirectionalDerivative: sum_k v_k(i) * (D_k x)(i);  v given flattened (ndim*N entries, constant
    directions are expanded by the caller) *)
 Definition ddir_ent (k : dkind) (e : bool) (N : nat) (axes : list axis4) (v : list Qc) : ent :=
@@ -111,8 +121,12 @@ Definition ddir_ent (k : dkind) (e : bool) (N : nat) (axes : list axis4) (v : li
   fun i j => qsum (fun a => (nth (a * N + i) v qc0 * nth a gs e_zero i j)%Qc) (length axes).
 Definition mkDD1 id (k : dkind) (e : bool) (N : nat) (axes : list axis4) (v : list Qc) A B : case :=
   let d := ddir_ent k e N axes v in
-  {| cid := id; rows := N; cols := N; frefs := [(1%Z, d)]; arefs := [(3%Z, e_T d)]; cA := A; cB := B |}.
+  let ax := combine (map (to_axis N) axes) (chunks QcR N (length axes) v) in
+  {| cid := id; rows := N; cols := N; frefs := [(1%Z, d); (2%Z, nd_mat N N (fdd_nd QcF N k e ax))];
+     arefs := [(3%Z, nd_mat N N (fdd_nd_adj QcF N k e ax))]; cA := A; cB := B |}.
 (* SecondDirectionalDerivative: - D_v^T D_v with the centred first directional derivative *)
 Definition mkDD2 id (e : bool) (N : nat) (axes : list axis4) (v : list Qc) A B : case :=
   let d := e_negATA N (ddir_ent Centered e N axes v) in
-  {| cid := id; rows := N; cols := N; frefs := [(1%Z, d)]; arefs := [(3%Z, e_T d)]; cA := A; cB := B |}.
+  let ax := combine (map (to_axis N) axes) (chunks QcR N (length axes) v) in
+  {| cid := id; rows := N; cols := N; frefs := [(1%Z, d); (2%Z, nd_mat N N (sdd_nd QcF N e ax))];
+     arefs := [(3%Z, nd_mat N N (sdd_nd QcF N e ax))]; cA := A; cB := B |}.
